@@ -33,6 +33,11 @@
 #include "status_printer.h"
 #include "util.h"
 
+// ninja's own front end, for the code that digests a loaded log on the way to a build (NinjaMain)
+#define main ninja_cc_main
+#include "ninja.cc"
+#undef main
+
 using namespace std;
 
 // ---- exit() interposition: Fatal() is a legitimate way to report an error --------------------
@@ -148,6 +153,16 @@ static void RunBuildLog(const string& in) {
   string err;
   LoadStatus st = log.Load(".ninja_log", &err);
   for (auto& kv : log.entries()) (void)kv.second->command_hash;
+  {
+    // what a build does next with the entries: the previous elapsed time of every statement whose output is on record
+    BuildConfig config;
+    NinjaMain nm("ninja", config);
+    MemReader r;
+    r.files["build.ninja"] = "rule r\n  command = c\nbuild a: r\nbuild 1 7: r\n";
+    ManifestParser p(&nm.state_, &r);
+    string e2;
+    if (p.Load("build.ninja", &e2) && nm.build_log_.Load(".ninja_log", &e2) != LOAD_ERROR) nm.ParsePreviousElapsedTimes();
+  }
   vfs::active = false;
   if (st == LOAD_SUCCESS) g_counts->accepted++; else g_counts->rejected++;
 }
@@ -335,6 +350,11 @@ static vector<Format> Formats() {
                {"# ninja log v7\n", "# ninja log v6\n", "# ninja log v", "1", "\t", "a", "\n", "99999999999999999999", "-1",
                 "deadbeef", string(1, '\0'), "\r", "7"},
                RunBuildLog});
+  // whole records behind a valid header: every field drawn from a value alphabet with the extremes of the types they
+  // are read into (int start/end times, 64-bit mtime, hex hash)
+  f.push_back({"ninja_log_records",
+               {"0\t", "1\t", "-1\t", "2147483647\t", "-2147483648\t", "99999999999999999999\t", "a\t", "1 7\t", "ffffffffffffffffff\n", "b\n"},
+               [](const string& in) { RunBuildLog("# ninja log v7\n" + in); }});
   {
     vector<string> w;
     for (uint32_t x : {0u, 1u, 4u, 8u, 12u, 16u, 0x80000000u, 0x80000004u, 0x80000008u, 0x8000000cu, 0x80000010u, 0x7fffffffu,
